@@ -1,6 +1,7 @@
 import IceModel.Driver.Parse
 import IceModel.Driver.Layout
 import IceModel.Driver.ModelAns
+import IceModel.Model.Writer
 import IceModel.Model.Iter1Hit
 import IceModel.Model.Bits
 /-
@@ -250,6 +251,19 @@ def answer (A : Answerer) (st : St) (toks : List String) : Option String := do
     let i ← s.toNat?
     let sg ← st.segs[i]?
     pure (layoutDV (st.merged.getD i false) sg (← parseBytes f))
+  | ["bufio", size, k, lens] =>
+    -- the bufio/countHashWriter/Merger.WriteTo model against a sink that accepts k bytes then fails
+    let size ← size.toNat?
+    let k ← k.toNat?
+    let W := (← parseNatList lens).map (fun n => List.replicate n 0)
+    let crc : Model.Writer.CRC := { upd := fun _ _ => 0, upd_append := fun _ _ _ => rfl }
+    let sink : Model.Writer.Sink :=
+      { beh := fun _ got n => if got + n ≤ k then ⟨n, false⟩ else ⟨k - got, true⟩ }
+    let (o, sk) := Model.Writer.mergerWriteTo sink crc (fun _ => true) size W
+    let res := match o with
+      | .ok n => s!"ok n={n}"
+      | .error => "err"
+    pure s!"{res} calls={sk.calls} got={sk.got.length}"
   | ["mergen", s] =>
     let _ ← st.segs[(← s.toNat?)]?
     pure "ok"
